@@ -39,6 +39,7 @@ var treePlan = []planEntry{
 	{spaces.XMlRef, 5, 6},
 	{spaces.XNulRef, 5, 6},
 	{spaces.XPhrase, 4, 5},
+	{spaces.XRefTail, 5, 6},
 	{spaces.XMl, 5, 6},
 	{spaces.XDefs, 5, 6},
 	{spaces.XInfo, 4, 5},
